@@ -293,6 +293,21 @@ func runFunction(vc *VC, u *Universe, pi *PkgInfo, fc *FuncContract, fn *ssa.Fun
 			}
 		}
 	}
+	if fc.NoPre {
+		// the function is checked only through its call-site assertions and postconditions; the
+		// preconditions of its callees (mostly non-nil facts lost to havocked calls) are left undecided
+		var keep []*Obl
+		n := 0
+		for _, o := range vc.obls {
+			if strings.HasPrefix(o.Kind, "pre@") || o.Kind == "pre" {
+				n++
+				continue
+			}
+			keep = append(keep, o)
+		}
+		vc.obls = keep
+		x.note(fmt.Sprintf("abstracted (not claimed): %d callee preconditions are left undecided in this function (nopre)", n))
+	}
 	if len(fc.NotClaimed) > 0 {
 		// obligations the contract explicitly leaves undecided: generated, not checked, reported as such
 		var keep []*Obl
